@@ -2,9 +2,10 @@ use crate::engine::CheckDef;
 
 pub mod common;
 pub mod c05;
+pub mod c06;
 
 pub fn all() -> Vec<&'static CheckDef> {
-    vec![&c05::DEF]
+    vec![&c05::DEF, &c06::DEF]
 }
 
 pub fn find(id: &str) -> Option<&'static CheckDef> {
